@@ -27,7 +27,7 @@ MANIFEST = dict(
     design="5/C04")
 INVS = ["TypeOK", "PokeRejected", "EqExact", "EqTruth", "EqReflexive", "EqTransitive"]
 PROPS = ["Frozen", "DerivedRight"]
-ALL = ["flat", "flat2", "cont", "deep", "nest", "gen", "genraw", "miss", "flag", "rng", "anyl"]
+ALL = ["flat", "flat2", "cont", "deep", "nest", "gen", "genw", "genraw", "miss", "flag", "rng", "anyl"]
 
 
 class Flat(State):
@@ -89,6 +89,8 @@ def make(cls, v):
         return Nest(inner=Flat(a=v, b="x")), None
     if cls == "gen":
         return G[int](v=v), None
+    if cls == "genw":
+        return G[int | None](v=v), None     # a wider specialisation of the same generic: another class, never equal to G[int]'s
     if cls == "genraw":
         return G(v=v), None
     if cls == "miss":
@@ -121,8 +123,9 @@ def value_of(cls, o):
     if cls == "nest":
         ok = o.opt is None and isinstance(o.inner, Flat) and o.inner.b == "x"
         return o.inner.a if ok else f"odd {d!r}"
-    if cls in ("gen", "genraw"):
-        return o.v if d == {"v": o.v} else f"odd {d!r}"
+    if cls in ("gen", "genraw", "genw"):
+        want = {"gen": G[int], "genraw": G, "genw": G[int | None]}[cls]
+        return o.v if d == {"v": o.v} and type(o) is want else f"odd {d!r} of {type(o).__qualname__}"
     if cls == "miss":
         ok = o.n == 1 and (("w" not in d) if o.w is MISSING else d.get("w") == o.w)
         return (0 if o.w is MISSING else o.w) if ok else f"odd {d!r}"
@@ -136,7 +139,7 @@ def value_of(cls, o):
     raise ValueError(cls)
 
 
-ATTR = {"rng": "r", "anyl": "v", "flat": "a", "flat2": "a", "cont": "xs", "deep": "rows", "nest": "inner", "gen": "v", "genraw": "v", "miss": "w",
+ATTR = {"rng": "r", "anyl": "v", "flat": "a", "flat2": "a", "cont": "xs", "deep": "rows", "nest": "inner", "gen": "v", "genw": "v", "genraw": "v", "miss": "w",
         "flag": "value"}
 
 
@@ -243,7 +246,7 @@ class HeapDriver:
             return o.updated(rows=tuple(list(range(1, nv + 1)) for _ in range(2)), idx={"k": list(range(1, nv + 1))})
         if cls == "nest":
             return o.updated(inner=Flat(a=nv, b="x"))
-        if cls in ("gen", "genraw"):
+        if cls in ("gen", "genraw", "genw"):
             return o.updated(v=nv)
         if cls == "flag":
             return o.updated(value=1 if nv == 1 else True)
@@ -305,7 +308,7 @@ def gen_trace(rnd, nobjs=10, nops=30):
                 heap[i - 1][2] += 1
             elif name == "Updated":
                 how = rnd.choice(["valid", "valid", "invalid", "invalid_eq", "unknown"])
-                has_eq = c in ("flat", "flat2", "gen", "deep") or (c in ("miss", "cont") and v != 0)
+                has_eq = c in ("flat", "flat2", "gen", "genw", "deep") or (c in ("miss", "cont") and v != 0)
                 if (how == "invalid_eq" and not has_eq) or (how in ("valid", "unknown") and len(heap) >= nobjs):
                     continue
                 args = [i, how]
@@ -327,7 +330,7 @@ def gen_trace(rnd, nobjs=10, nops=30):
 TRACE_KW = dict(
     variables=["heap", "nops", "obs"],
     constants=dict(MaxObjs=10, MaxOps=100000, Bug='"none"',
-                   Classes='{"flat", "flat2", "cont", "deep", "nest", "gen", "genraw", "miss", "flag", "rng", "anyl"}'),
+                   Classes='{"flat", "flat2", "cont", "deep", "nest", "gen", "genw", "genraw", "miss", "flag", "rng", "anyl"}'),
     config_vars=[], actions=dict(Construct=2, Poke=2, MutateInput=1, EditDict=1, Updated=2, Copy=2, Compare=2),
     invariants=["PokeRejected", "EqExact", "EqTruth"])
 
